@@ -1,4 +1,7 @@
 import T4V.Text.NormFloat
+import Mathlib.Tactic.Ring
+import Mathlib.Tactic.NormNum
+import Mathlib.Tactic.Conv
 /-!
 # Property C09 — density spellings (the `normalize_float` part)
 
@@ -143,5 +146,273 @@ example : normalizeFloat "-2.7e0".toList = "-2.7e0".toList := by decide
 example : normalizeFloat "6.40875-2".toList = "6.40875e-2".toList := by decide
 example : normalizeFloat "1.23000".toList = "1.23".toList := by decide
 example : normalizeFloat "-5D4".toList = "-5e4".toList := by decide
+
+/-! ### the key of a plain decimal, and what number it stands for -/
+
+/-- the fraction digits the key keeps: trailing zeros stripped, a lone `0` if nothing is left -/
+def keyFrac (fp : List Char) : List Char := if stripZerosR fp = [] then ['0'] else stripZerosR fp
+
+def signChars (d : PlainDec) : List Char := match d.sign with | some c => [c] | none => []
+
+theorem stripZerosR_digits (fp : List Char) (h : ∀ c ∈ fp, isDig c = true) : ∀ c ∈ stripZerosR fp, isDig c = true := by
+  intro c hc
+  unfold stripZerosR at hc
+  have : c ∈ fp.reverse := List.dropWhile_subset _ (by simpa using hc)
+  exact h c (by simpa using this)
+
+theorem stripZerosR_decomp (fp : List Char) : ∃ k, fp = stripZerosR fp ++ List.replicate k '0' := by
+  unfold stripZerosR
+  have key : ∀ l : List Char, ∃ k, l = List.replicate k '0' ++ l.dropWhile (· == '0') := by
+    intro l
+    induction l with
+    | nil => exact ⟨0, rfl⟩
+    | cons a r ih =>
+      by_cases ha : (a == '0') = true
+      · obtain ⟨k, hk⟩ := ih
+        have : a = '0' := by simpa using ha
+        exact ⟨k + 1, by simp only [List.dropWhile_cons, ha, if_true, List.replicate_succ, List.cons_append]; rw [← hk, this]⟩
+      · exact ⟨0, by simp [ha]⟩
+  obtain ⟨k, hk⟩ := key fp.reverse
+  refine ⟨k, ?_⟩
+  have := congrArg List.reverse hk
+  simpa [List.reverse_append] using this
+
+theorem stripZerosR_last (fp : List Char) : (stripZerosR fp).getLast? ≠ some '0' := by
+  unfold stripZerosR
+  rw [List.getLast?_reverse]
+  cases h : fp.reverse.dropWhile (· == '0') with
+  | nil => simp
+  | cons a r =>
+    have := List.head?_dropWhile_not (· == '0') fp.reverse
+    simp only [h, List.head?_cons, Option.all_some] at this
+    simp only [List.head?_cons, ne_eq, Option.some.injEq]
+    intro e; subst e; simp at this
+
+theorem not_marker_of_dig (c : Char) (h : isDig c = true) : (c == 'E' || c == 'd' || c == 'D') = false := by
+  unfold isDig Char.isDigit at h
+  have h1 : c ≠ 'E' := by intro e; subst e; simp at h
+  have h2 : c ≠ 'd' := by intro e; subst e; simp at h
+  have h3 : c ≠ 'D' := by intro e; subst e; simp at h
+  simp [h1, h2, h3]
+theorem stripZerosR_noop (fp : List Char) (h : fp.getLast? ≠ some '0') : stripZerosR fp = fp := by
+  unfold stripZerosR
+  cases hr : fp.reverse with
+  | nil =>
+    have : fp = [] := by simpa using hr
+    simp [this]
+  | cons a r =>
+    have ha : fp.getLast? = some a := by
+      have : fp = (a :: r).reverse := by rw [← hr]; simp
+      rw [this]; simp
+    have hne : a ≠ '0' := by intro e; subst e; exact h ha
+    have : ((a :: r).dropWhile (· == '0')) = a :: r := by simp [hne]
+    rw [this, ← hr]; simp
+
+/-- the canonical plain decimal a key stands for -/
+def keyDec (d : PlainDec) : PlainDec := { d with fp := keyFrac d.fp }
+
+theorem keyDec_WF (d : PlainDec) (hw : d.WF) : (keyDec d).WF := by
+  refine ⟨hw.1, hw.2.1, ?_⟩
+  intro c hc
+  simp only [keyDec, keyFrac] at hc
+  split at hc
+  · simp at hc; subst hc; decide
+  · exact stripZerosR_digits d.fp hw.2.2 c hc
+
+theorem chars_eq (d : PlainDec) : d.chars = signChars d ++ d.ip ++ '.' :: d.fp := by
+  unfold PlainDec.chars signChars; cases d.sign <;> rfl
+
+theorem getLast_dot (pre fp : List Char) (hf : ∀ c ∈ fp, isDig c = true) :
+    (pre ++ '.' :: fp).getLast? = some '.' ↔ fp = [] := by
+  constructor
+  · intro h
+    cases hr : fp.reverse with
+    | nil => simpa using hr
+    | cons a r =>
+      exfalso
+      have hfp : fp = r.reverse ++ [a] := by
+        have := congrArg List.reverse hr; simpa using this
+      rw [hfp] at h
+      have : (pre ++ '.' :: (r.reverse ++ [a])).getLast? = some a := by
+        rw [show pre ++ '.' :: (r.reverse ++ [a]) = (pre ++ '.' :: r.reverse) ++ [a] by simp]
+        exact List.getLast?_concat
+      rw [this] at h
+      have ha : a = '.' := by simpa using h
+      have := hf a (by rw [hfp]; simp)
+      rw [ha] at this
+      simp [isDig, Char.isDigit] at this
+  · intro h; subst h; simp
+
+theorem pass12_plain (d : PlainDec) (hw : d.WF) : nfPointZero (nfStripZeros d.chars) = (keyDec d).chars := by
+  have h1 : nfStripZeros d.chars = signChars d ++ d.ip ++ '.' :: stripZerosR d.fp := by
+    rw [nfStripZeros_plain d hw, chars_eq]
+    unfold signChars
+    by_cases hl : d.fp.getLast? = some '0'
+    · cases d.sign <;> simp [hl]
+    · cases d.sign <;> simp [hl, stripZerosR_noop d.fp hl]
+  rw [h1, chars_eq]
+  unfold nfPointZero
+  simp only [keyDec, keyFrac]
+  have hd := stripZerosR_digits d.fp hw.2.2
+  have hsg : signChars (⟨d.sign, d.ip, if stripZerosR d.fp = [] then ['0'] else stripZerosR d.fp⟩ : PlainDec) = signChars d := rfl
+  rw [hsg]
+  by_cases he : stripZerosR d.fp = []
+  · have := (getLast_dot (signChars d ++ d.ip) (stripZerosR d.fp) hd).mpr he
+    rw [he] at this
+    simp only [List.append_assoc] at this
+    simp only [beq_iff_eq, he, List.append_assoc, List.cons_append, List.nil_append, this, if_true]
+  · have := mt (getLast_dot (signChars d ++ d.ip) (stripZerosR d.fp) hd).mp he
+    simp only [List.append_assoc] at this ⊢
+    simp only [beq_iff_eq, this, if_false, he]
+theorem takeWhile_all {p : Char → Bool} (l : List Char) (h : ∀ c ∈ l, p c = true) :
+    l.takeWhile p = l ∧ l.dropWhile p = [] := by
+  induction l with
+  | nil => simp
+  | cons a r ih =>
+    have ha := h a (by simp)
+    have := ih (fun c hc => h c (by simp [hc]))
+    simp [ha, this.1, this.2]
+
+theorem nfInsertE_plain (d : PlainDec) (hw : d.WF) (hne : d.fp ≠ []) : nfInsertE d.chars = d.chars := by
+  unfold nfInsertE
+  rw [splitSign_chars d hw]
+  have ht := takeWhile_append_stop' (p := isDig) d.ip ('.' :: d.fp) hw.2.1
+    (by intro c r h; simp at h; obtain ⟨rfl, _⟩ := h; decide)
+  have hf := takeWhile_all (p := isDig) d.fp hw.2.2
+  simp only [ht.1, ht.2, hf.1, hf.2]
+  have : d.fp.isEmpty = false := by simpa using hne
+  simp [this]
+
+theorem nfMarkers_plain (d : PlainDec) (hw : d.WF) : nfMarkers d.chars = d.chars := by
+  unfold nfMarkers
+  have : ∀ c ∈ d.chars, (c == 'E' || c == 'd' || c == 'D') = false := by
+    intro c hc
+    rw [chars_eq] at hc
+    simp only [List.mem_append, List.mem_cons] at hc
+    rcases hc with (hc | hc) | hc | hc
+    · unfold signChars at hc
+      cases hs : d.sign with
+      | none => simp [hs] at hc
+      | some sg =>
+        simp [hs] at hc
+        have := hw.1 sg hs
+        rw [← hc] at this
+        unfold isSign at this
+        simp only [Bool.or_eq_true, beq_iff_eq] at this
+        rcases this with h | h <;> (subst h; decide)
+    · exact not_marker_of_dig c (hw.2.1 c hc)
+    · subst hc; decide
+    · exact not_marker_of_dig c (hw.2.2 c hc)
+  calc d.chars.map (fun c => if (c == 'E' || c == 'd' || c == 'D') = true then 'e' else c)
+      = d.chars.map id := List.map_congr_left (fun c hc => by simp [this c hc])
+    _ = d.chars := by simp
+
+/-- **the key of a plain decimal**: sign and integer digits as written, the fraction without its trailing
+zeros (a lone 0 if nothing is left) -/
+theorem normalizeFloat_plain (d : PlainDec) (hw : d.WF) : normalizeFloat d.chars = (keyDec d).chars := by
+  unfold normalizeFloat
+  rw [pass12_plain d hw]
+  have hw' := keyDec_WF d hw
+  have hne : (keyDec d).fp ≠ [] := by
+    simp only [keyDec, keyFrac]; split <;> simp_all
+  rw [nfInsertE_plain _ hw' hne, nfMarkers_plain _ hw']
+theorem chars_injective (d1 d2 : PlainDec) (h1 : d1.WF) (h2 : d2.WF) (h : d1.chars = d2.chars) :
+    d1.sign = d2.sign ∧ d1.ip = d2.ip ∧ d1.fp = d2.fp := by
+  have s1 := splitSign_chars d1 h1
+  have s2 := splitSign_chars d2 h2
+  rw [h, s2] at s1
+  simp only [Prod.mk.injEq] at s1
+  obtain ⟨hs, hr⟩ := s1
+  have hsign : d1.sign = d2.sign := by
+    cases e1 : d1.sign <;> cases e2 : d2.sign <;> simp [e1, e2] at hs ⊢
+    exact hs.symm
+  have t1 := takeWhile_append_stop' (p := isDig) d1.ip ('.' :: d1.fp) h1.2.1
+    (by intro c r h; simp at h; obtain ⟨rfl, _⟩ := h; decide)
+  have t2 := takeWhile_append_stop' (p := isDig) d2.ip ('.' :: d2.fp) h2.2.1
+    (by intro c r h; simp at h; obtain ⟨rfl, _⟩ := h; decide)
+  rw [hr] at t2
+  have hip : d1.ip = d2.ip := t1.1.symm.trans t2.1 |>.symm |>.symm
+  have hfp : '.' :: d1.fp = '.' :: d2.fp := t1.2.symm.trans t2.2
+  exact ⟨hsign, by rw [← t1.1, t2.1], by simpa using hfp⟩
+theorem digitsNat_append (a b : List Char) : digitsNat (a ++ b) = digitsNat a * 10 ^ b.length + digitsNat b := by
+  unfold digitsNat
+  rw [List.foldl_append]
+  generalize List.foldl (fun a d => a * 10 + (d.toNat - '0'.toNat)) 0 a = n
+  induction b generalizing n with
+  | nil => simp
+  | cons c r ih =>
+    simp only [List.foldl_cons, List.length_cons]
+    rw [ih, ih (0 * 10 + (c.toNat - '0'.toNat))]
+    simp only [Nat.zero_mul, Nat.zero_add, Nat.pow_succ]
+    rw [Nat.add_mul, Nat.add_assoc]
+    congr 1
+    rw [Nat.mul_assoc, Nat.mul_comm 10]
+
+theorem digitsNat_zeros (k : Nat) : digitsNat (List.replicate k '0') = 0 := by
+  induction k with
+  | zero => rfl
+  | succ k ih =>
+    rw [List.replicate_succ', digitsNat_append, ih]
+    rfl
+
+/-- numerator and number of fraction digits: the literal denotes `num / 10^den` -/
+def decValue (d : PlainDec) : Int × Nat :=
+  ((if d.sign = some '-' then -(digitsNat (d.ip ++ d.fp) : Int) else (digitsNat (d.ip ++ d.fp) : Int)), d.fp.length)
+
+/-- `a.1 / 10^a.2 = b.1 / 10^b.2` -/
+def sameValue (a b : Int × Nat) : Prop := a.1 * (10:Int) ^ b.2 = b.1 * (10:Int) ^ a.2
+
+theorem sameValue_symm {a b : Int × Nat} (h : sameValue a b) : sameValue b a := h.symm
+
+theorem sameValue_trans {a b c : Int × Nat} (h1 : sameValue a b) (h2 : sameValue b c) : sameValue a c := by
+  unfold sameValue at *
+  have hpos : ((10:Int) ^ b.2) ≠ 0 := by
+    apply Int.ne_of_gt; exact Int.pow_pos (by decide)
+  apply Int.eq_of_mul_eq_mul_right hpos
+  calc a.1 * 10 ^ c.2 * 10 ^ b.2 = (a.1 * 10 ^ b.2) * 10 ^ c.2 := by
+        rw [Int.mul_assoc, Int.mul_comm (10 ^ c.2), ← Int.mul_assoc]
+    _ = (b.1 * 10 ^ a.2) * 10 ^ c.2 := by rw [h1]
+    _ = (b.1 * 10 ^ c.2) * 10 ^ a.2 := by
+        rw [Int.mul_assoc, Int.mul_comm (10 ^ a.2), ← Int.mul_assoc]
+    _ = (c.1 * 10 ^ b.2) * 10 ^ a.2 := by rw [h2]
+    _ = c.1 * 10 ^ a.2 * 10 ^ b.2 := by
+        rw [Int.mul_assoc, Int.mul_comm (10 ^ b.2), ← Int.mul_assoc]
+
+/-- the key denotes the same number as the literal -/
+theorem key_keeps_value (d : PlainDec) : sameValue (decValue d) (decValue (keyDec d)) := by
+  obtain ⟨k, hk⟩ := stripZerosR_decomp d.fp
+  have hnum : digitsNat (d.ip ++ d.fp) = digitsNat (d.ip ++ stripZerosR d.fp) * 10 ^ k := by
+    conv_lhs => rw [hk]
+    rw [← List.append_assoc, digitsNat_append, digitsNat_zeros]
+    simp
+  have hlen : d.fp.length = (stripZerosR d.fp).length + k := by
+    conv_lhs => rw [hk]
+    simp
+  unfold sameValue decValue keyDec keyFrac
+  by_cases he : stripZerosR d.fp = []
+  · simp only [he, if_true, List.length_cons, List.length_nil]
+    have hn0 : digitsNat (d.ip ++ ['0']) = digitsNat d.ip * 10 := by
+      rw [digitsNat_append]; simp [digitsNat]
+    rw [he] at hnum hlen
+    simp only [List.append_nil, List.length_nil, Nat.zero_add] at hnum hlen
+    rw [hnum, hn0, hlen]
+    by_cases hs : d.sign = some '-'
+    · simp only [hs, if_true]; push_cast; ring
+    · simp only [hs, if_false]; push_cast; ring
+  · simp only [he, if_false]
+    rw [hnum, hlen]
+    by_cases hs : d.sign = some '-'
+    · simp only [hs, if_true]; push_cast; ring
+    · simp only [hs, if_false]; push_cast; ring
+
+/-- **cells whose densities get the same key have numerically equal densities** (plain decimals of any length):
+so numerically different densities never share a composition -/
+theorem same_key_same_value (d1 d2 : PlainDec) (h1 : d1.WF) (h2 : d2.WF)
+    (h : normalizeFloat d1.chars = normalizeFloat d2.chars) : sameValue (decValue d1) (decValue d2) := by
+  rw [normalizeFloat_plain d1 h1, normalizeFloat_plain d2 h2] at h
+  obtain ⟨hs, hi, hf⟩ := chars_injective _ _ (keyDec_WF d1 h1) (keyDec_WF d2 h2) h
+  have hk : decValue (keyDec d1) = decValue (keyDec d2) := by
+    unfold decValue; rw [hs, hi, hf]
+  exact sameValue_trans (key_keeps_value d1) (hk ▸ sameValue_symm (key_keeps_value d2))
 
 end T4V.C09
